@@ -421,6 +421,40 @@ def directed(ctx, res):
                 res.corr_disagreements.append((comp, inp[:600], m[:700], e[:700]))
 
 
+def check_many_directives(ctx, res):
+    """a file with more than a thousand ## lines (a '###' after every gene, as GFF3 writers emit, plus distinct ones),
+    before, between and after the features: db.directives and DataIterator.directives hold every one, in order"""
+    import gffutils
+    from gffutils import iterators
+    lines, want = ["##gff-version 3"], ["gff-version 3"]
+    for k in range(1003 if not ctx.thorough else 2300):
+        lines.append("chr1\tsrc\tgene\t%d\t%d\t.\t+\t.\tID=g%d" % (10 * k + 1, 10 * k + 5, k))
+        d = "###" if k % 3 else "##note %d" % k
+        lines.append(d); want.append(d[2:])
+    path = os.path.join(ctx.scratch, "c14_many.gff3")
+    with open(path, "w", encoding="utf-8") as fh:
+        fh.write("".join(l + "\n" for l in lines))
+    case = {"scenario": "many_directives", "input": ["(%d lines, %d directives)" % (len(lines), len(want))], "no_shrink": True}
+    res.evaluations += 1
+    res.count("file_with_%d_directives" % len(want))
+    try:
+        it = iterators.DataIterator(path)
+        n = sum(1 for _ in it)
+        db = gffutils.create_db(path, os.path.join(ctx.scratch, "c14_many.db"), force=True)
+        got_db, got_it = list(db.directives), list(it.directives)
+        got_re = list(gffutils.FeatureDB(os.path.join(ctx.scratch, "c14_many.db")).directives)
+    except Exception as ex:
+        common.fail(res, case, "import_raised", "a file with %d directives raised %r" % (len(want), ex))
+        return
+    for label, got in (("DataIterator.directives", got_it), ("db.directives", got_db), ("db.directives after reopen", got_re)):
+        if got != want:
+            first = next((j for j, (a, b) in enumerate(zip(got, want)) if a != b), min(len(got), len(want)))
+            common.fail(res, case, "many_directives_lost",
+                        "%s of a file with %d ## lines is not the list of its ## lines in order" % (label, len(want)),
+                        observed_length=len(got), expected_length=len(want), first_difference_at=first)
+            return
+
+
 def check_overlapping_iterators(ctx, res):
     """two DataIterators alive at the same time (the first kept while the second is built and read; two files read side by
     side): each one's .directives is the list of ITS file's ## lines"""
@@ -601,6 +635,7 @@ def run(ctx):
 
     # model ----------------------------------------------------------------------------------------------
     check_overlapping_iterators(ctx, res)
+    check_many_directives(ctx, res)
     out = ctx.model(cmds)
     if out is not None:
         for m, e, (comp, inp) in zip(out, exp, tags):
